@@ -49,6 +49,11 @@ ASSUMPTIONS = [
     "reads carry a sequence (SEQ '*' is outside the property)",
 ]
 
+# The no-reference clause of C06 ("without one this holds for SNVs and unshiftable insertions/deletions ...") can be read
+# as "always found" (True) or only as "never the wrong allele" (False).  With True a *not found* (never wrong) outcome
+# without a reference is a property failure (this is what exposes F13; fixes/F13.patch repairs it); set to False to
+# demand only "recorded allele in {carried allele, none}" without a reference (then such outcomes are observations).
+NOREF_DEMANDS_FOUND = True
 KEY_F11 = "second-nonref-allele-in-window"
 KEY_F12 = "paired-end-opposite-orientation-mate-dropped"
 KEY_F13 = "noref-multibase-allele-not-found"
@@ -608,6 +613,8 @@ def oracle(ctx, case, label, mode, hv, listed, by_name, got, per_aln):
                                  key="ref-allele-not-found-isolated" + ("-near-refskip" if near_n is not None and near_n < 12 else ""))
                     else:
                         ctx.observe("ref: no allele (tie) for a fully covering read with a second non-REF allele in the window")
+                elif not NOREF_DEMANDS_FOUND:
+                    ctx.observe(f"noref: allele not found for {v.kind} (never wrong; 'found' not demanded: NOREF_DEMANDS_FOUND=False)")
                 else:
                     if v.kind == "snv":
                         ctx.fail(f"noref: allele {a} of SNV {v!r} not found", where(), key="noref-snv-not-found")
